@@ -10,8 +10,8 @@ from gen_config import *  # noqa
 PROP_FILES = ["Config/Properties_C18.v"]
 MANIFEST = dict(
     technique="Coq proof (case analysis over policy x cache x hash x server with arbitrary contents, SHA-256 an uninterpreted section variable; induction over fetch histories sharing one cache) on a Gallina port of fetch_remote_config_with_client, tied by an exhaustive run of the policy table through the re-exported function with a scripted HttpClient, sampled histories, and real kills at every hook point of the cache write",
-    text="Theorems C18_integrity, C18_never_caches_mismatch, C18_offline_never_fetches, C18_refresh_never_reads_cache, C18_normal_respects_ttl, C18_sequence_inv, C18_failed_fetch_leaves_cache, C18_crash_with_hash_safe, C18_crash_without_hash hold for every hash function, every content, every clock value and every history (unbounded). The tie to the Rust code: the full product policy(3) x cache state(21: absent, 5 ages x 4 bodies) x extends_sha256(11, incl. empty / prefix / upper-case / over-long / last-char-differs pins) x server(4) under the simulated and the wall clock, sampled histories of 2-4 fetches, and a child process killed at each named point of the cache write followed by a second run.",
-    note="Trusted: Coq kernel, extraction, harness sgv-config (scripted client, clock virtualisation: a cache file written under the simulated clock is re-stamped with the simulated time), sha2, the file system's rename atomicity. ReqwestClient::get is exercised against a local plain-HTTP stub (status classes); TLS, redirects that do carry a Location and real time-outs are not.",
+    text="Theorems C18_integrity, C18_never_caches_mismatch, C18_offline_never_fetches, C18_unreadable_entry_is_a_miss, C18_refresh_never_reads_cache, C18_normal_respects_ttl, C18_sequence_inv, C18_failed_fetch_leaves_cache, C18_crash_with_hash_safe, C18_crash_without_hash hold for every hash function, every content, every clock value and every history (unbounded). The tie to the Rust code: the full product policy(3) x cache state(27: absent, 5 ages x 4 bodies, fresh / stale x 3 unreadable entries: torn inside a multi-byte character, invalid UTF-8 bytes, a directory at the entry path) x extends_sha256(11, incl. empty / prefix / upper-case / over-long / last-char-differs pins) x server(4) under the simulated and the wall clock, sampled histories of 2-4 fetches, and a child process killed at each named point of the cache write followed by a second run.",
+    note="Trusted: Coq kernel, extraction, harness sgv-config (scripted client, clock virtualisation: a cache file written under the simulated clock is re-stamped with the simulated time), sha2, the file system's rename atomicity. ReqwestClient::get is exercised against a local plain-HTTP stub (status classes, request count per run, through config show / config validate / check); TLS, redirects that do carry a Location and real time-outs are not.",
     ref="5 (C18)")
 
 GOOD = "[content]\nmax_lines = 100\n"
@@ -23,6 +23,20 @@ EMPTY = ""
 BODIES = {"GOOD": GOOD, "OLD": OLD, "ALT": ALT, "NEW": NEW, "TRUNC": TRUNC, "EMPTY": EMPTY}
 N0 = 1_000_000
 TTL = 3600
+# Unreadable entries: the entry path exists (cache_exists / is_cache_within_ttl succeed) but fs::read_to_string
+# fails. A cache value is None | (mtime, text) | (mtime, bytes as a latin-1 string, "G") | (mtime, "", "D").
+TORN_MB = ("# politique d\u2019\u00e9quipe\n" + GOOD).encode("utf-8")
+TORN_MB = TORN_MB[:TORN_MB.index(b"\xc3\xa9") + 1].decode("latin-1")     # cut after the lead byte of a 2-byte character
+BAD_BYTES = (b"\xff\xfe" + GOOD.encode("utf-8")).decode("latin-1")      # bytes that are not UTF-8 at all
+UNREADABLE = [("torn inside a multi-byte character", TORN_MB, "G"), ("invalid UTF-8 bytes", BAD_BYTES, "G"), ("a directory at the entry path", "", "D")]
+
+
+def readable(c):
+    return c is not None and len(c) == 2
+
+
+def is_dir(c):
+    return c is not None and len(c) == 3 and c[2] == "D"
 URL = "https://example.invalid/sgv/remote.toml"
 
 CRASH_POINTS = ["rc:before_create", "aw:start", "aw:after_mkparent", "aw:after_create_temp", "aw:after_write",
@@ -50,13 +64,26 @@ def htable():
     return ";".join("%s=%s" % (enc(b), enc(sha256_hex(b))) for b in BODIES.values())
 
 
-def cache_field(c):
-    return "!" if c is None else "%d:%s" % (c[0], enc(c[1]))
+def cache_field(c, stamp=None):
+    """stamp: replaces the mtime (the wall-clock rows send the AGE of the entry)."""
+    if c is None:
+        return "!"
+    m = c[0] if stamp is None else stamp
+    if is_dir(c):
+        return "D%d" % m
+    if not readable(c):
+        return "G%d:%s" % (m, enc(c[1]))
+    return "%d:%s" % (m, enc(c[1]))
 
 
 def parse_cache(s):
     if s == "!":
         return None
+    if s[0] == "D":
+        return (int(s[1:]), "", "D")
+    if s[0] == "G":
+        m, b = s[1:].split(":")
+        return (int(m), dec(b), "G")
     m, b = s.split(":")
     return (int(m), dec(b))
 
@@ -94,15 +121,17 @@ def oracle_row(policy, now, cache, expected, server, out):
         fails.append("unexpected answer " + o[1][:80])
     if expected is not None and o[0] == "CONTENT" and sha256_hex(o[1]) != expected:
         fails.append("integrity: effective content has SHA-256 %s but extends_sha256 = %r was accepted" % (sha256_hex(o[1]), expected))
-    if expected is not None and c2 != cache and (c2 is None or sha256_hex(c2[1]) != expected):
+    if expected is not None and c2 != cache and (not readable(c2) or sha256_hex(c2[1]) != expected):
         fails.append("a body whose hash differs from extends_sha256 was written to the cache")
+    if o[0] == "CONTENT" and o[1] not in ([cache[1]] if readable(cache) else []) + ([server[1]] if server[0] == "B" else []):
+        fails.append("content that is neither the text of the cache entry nor what the server answered")
     if policy == "offline":
         if n != 0:
             fails.append("offline policy contacted the network")
         if c2 != cache:
             fails.append("offline policy changed the cache")
-        if cache is None and o[0] != "MISS":
-            fails.append("offline policy with a cache miss did not fail")
+        if not readable(cache) and o[0] != "MISS":
+            fails.append("offline policy with a cache miss (entry absent or not readable) did not fail with the cache-miss error")
     if policy == "refresh":
         exp = ("CONTENT", server[1]) if server[0] == "B" and (expected is None or sha256_hex(server[1]) == expected) else None
         if n != 1:
@@ -115,13 +144,15 @@ def oracle_row(policy, now, cache, expected, server, out):
         fresh = cache[0] <= now and now - cache[0] < TTL
         if not fresh and n != 1:
             fails.append("normal policy used a cache entry older than its lifetime (or from the future)")
-        if fresh and expected is None and (o != ("CONTENT", cache[1]) or n != 0):
+        if fresh and not readable(cache) and n != 1:
+            fails.append("normal policy did not fetch although the fresh entry cannot be read")
+        if fresh and readable(cache) and expected is None and (o != ("CONTENT", cache[1]) or n != 0):
             fails.append("normal policy ignored a fresh cache entry")
-        if fresh and expected is not None and sha256_hex(cache[1]) == expected and (o != ("CONTENT", cache[1]) or n != 0):
+        if fresh and readable(cache) and expected is not None and sha256_hex(cache[1]) == expected and (o != ("CONTENT", cache[1]) or n != 0):
             fails.append("normal policy ignored a fresh, matching cache entry")
     if o[0] != "CONTENT" and c2 != cache:
         fails.append("a failed fetch changed the cache")
-    if o[0] == "CONTENT" and n == 1 and c2 != (now, o[1]):
+    if o[0] == "CONTENT" and n == 1 and not is_dir(cache) and c2 != (now, o[1]):
         fails.append("a successful fetch did not leave its body in the cache")
     return fails
 
@@ -133,6 +164,9 @@ def table_rows():
     for age in (10, 3599, 3600, 7200, -50):
         for b in (GOOD, OLD, TRUNC, EMPTY):
             caches.append((N0 - age, b))
+    for age in (10, 7200):
+        for _, body, kind in UNREADABLE:
+            caches.append((N0 - age, body, kind))
     rows = []
     for policy in ("normal", "offline", "refresh"):
         for c in caches:
@@ -147,7 +181,7 @@ def row_lines(row, real=False):
     ht = htable()
     m = "fetch\t%s\t%d\t%s\t%s\t%s\t%s" % (policy, now, cache_field(c), enc_opt(expected), server_field(server), ht)
     if real:
-        cf = "!" if c is None else "%d:%s" % (now - c[0], enc(c[1]))
+        cf = cache_field(c, stamp=None if c is None else now - c[0])
         i = "fetch\t%s\treal\t%s\t%s\t%s" % (policy, cf, enc_opt(expected), server_field(server))
     else:
         i = "fetch\t%s\t%d\t%s\t%s\t%s" % (policy, now, cache_field(c), enc_opt(expected), server_field(server))
@@ -169,13 +203,16 @@ def run_table(ctx, env, st, real):
     for r, io, mo, m in zip(rows, iouts, mouts, ml):
         tag = ("table-real:" if real else "table:") + r[0]
         st["hist"][tag] = st["hist"].get(tag, 0) + 1
+        if r[2] is not None and not readable(r[2]):
+            tag2 = tag + ":unreadable-entry"
+            st["hist"][tag2] = st["hist"].get(tag2, 0) + 1
         st["evals"] += 1
         if io in ("PANIC", "<NOANSWER>"):
             st["fails"].append({"level": "table", "row": repr(r), "impl": io, "what": "panic / no answer"})
             continue
         out = parse_fetch_out(io)
         if real and out[1] is not None:
-            out = (out[0], (N0 - out[1][0], out[1][1]), out[2])     # age -> virtual mtime
+            out = (out[0], (N0 - out[1][0],) + out[1][1:], out[2])     # age -> virtual mtime
         mout = parse_fetch_out(mo)
         if out != mout:
             st["mism"].append({"level": "table", "real_clock": real, "row": repr(r), "model_line": m, "impl": io, "model": mo})
@@ -208,12 +245,14 @@ def run_sequences(ctx, env, st, n):
     seqs = []
     for _ in range(n):
         k = rng.randint(2, 4)
-        c = rng.choice([None, None, (N0 - rng.choice([10, 3599, 3600, 9000]), rng.choice([GOOD, OLD, TRUNC, EMPTY]))])
+        c = rng.choice([None, None, (N0 - rng.choice([10, 3599, 3600, 9000]), rng.choice([GOOD, OLD, TRUNC, EMPTY])),
+                        (N0 - rng.choice([10, 3599, 3600, 9000]), rng.choice([GOOD, OLD, TRUNC, EMPTY])),
+                        (N0 - rng.choice([10, 9000]),) + rng.choice(UNREADABLE)[1:]])
         now = N0
         steps = []
         for _ in range(k):
             now += rng.choice([0, 10, 1800, 3599, 3600, 4000])
-            policy = rng.choice(["normal", "normal", "normal", "offline", "refresh"])
+            policy = rng.choice(["normal", "normal", "normal", "offline", "refresh"] + (["offline", "offline"] if not readable(c) else []))
             expected = rng.choice([None, None, sha256_hex(GOOD), sha256_hex(GOOD), sha256_hex(ALT)] + [v for _, v in pins()[3:]])
             server = rng.choice([("B", GOOD), ("B", GOOD), ("B", ALT), ("B", NEW), ("F", 1), ("F", 2)])
             steps.append((policy, now, expected, server))
@@ -228,6 +267,8 @@ def run_sequences(ctx, env, st, n):
         raise CheckBroken("model driver failed: %s" % merrs[:1])
     for (c, steps), io, mo, m in zip(seqs, iouts, mouts, ml):
         st["hist"]["sequence-%d" % len(steps)] = st["hist"].get("sequence-%d" % len(steps), 0) + 1
+        if c is not None and not readable(c):
+            st["hist"]["sequence:unreadable-initial-entry"] = st["hist"].get("sequence:unreadable-initial-entry", 0) + 1
         st["evals"] += 1
         if io in ("PANIC", "<NOANSWER>"):
             st["fails"].append({"level": "sequence", "model_line": m, "impl": io, "what": "panic / no answer"})
@@ -241,17 +282,25 @@ def run_sequences(ctx, env, st, n):
         outs = [x.strip() for x in outs_s.split(";")]
         # invariants over the history: integrity per step; every content returned is a complete body that the
         # server served or the initial entry; when every step pins one hash the final cache is initial or has it
-        served = {s[3][1] for s in steps if s[3][0] == "B"} | ({c[1]} if c else set())
+        served = {s[3][1] for s in steps if s[3][0] == "B"} | ({c[1]} if readable(c) else set())
+        cur_unreadable = c is not None and not readable(c)      # still the unreadable initial entry (a write replaces a garbled file)
         for s, o in zip(steps, outs):
             oc = parse_outcome(o.rsplit(" ", 1)[0])
+            nreq = int(o.rsplit(" ", 1)[1])
+            if s[0] == "offline" and nreq != 0:
+                st["fails"].append({"level": "sequence", "model_line": m, "impl": io, "what": "offline policy contacted the network inside a history"})
+            if s[0] == "offline" and cur_unreadable and oc[0] != "MISS":
+                st["fails"].append({"level": "sequence", "model_line": m, "impl": io, "what": "offline policy over an entry that cannot be read did not fail with the cache-miss error"})
             if oc[0] == "CONTENT":
+                if nreq == 1 and not is_dir(c):
+                    cur_unreadable = False
                 if s[2] is not None and sha256_hex(oc[1]) != s[2]:
                     st["fails"].append({"level": "sequence", "model_line": m, "impl": io,
                                         "what": "integrity violated inside a history: content with SHA-256 %s accepted under extends_sha256 = %r" % (sha256_hex(oc[1]), s[2])})
                 if oc[1] not in served:
                     st["fails"].append({"level": "sequence", "model_line": m, "impl": io, "what": "content that nobody served"})
         hs = {s[2] for s in steps}
-        if len(hs) == 1 and None not in hs and final != c and (final is None or sha256_hex(final[1]) not in hs):
+        if len(hs) == 1 and None not in hs and final != c and (not readable(final) or sha256_hex(final[1]) not in hs):
             st["fails"].append({"level": "sequence", "model_line": m, "impl": io, "what": "history with one pinned hash left a mismatching cache entry"})
         st["nontrivial"].add(m)
     for (c, steps), io in list(zip(seqs, iouts))[:2]:
@@ -266,10 +315,13 @@ def cache_file(root):
 
 def read_state(root):
     p = cache_file(root)
-    if not os.path.exists(p):
+    v = fs_state(p)
+    if v is None:
         return None
-    with open(p, "rb") as f:
-        return (int(os.stat(p).st_mtime), f.read().decode("utf-8", "replace"))
+    m = int(os.stat(p).st_mtime)
+    if v == ("D",):
+        return (m, "", "D")
+    return (m, v) if isinstance(v, str) else (m, v[1], "G")
 
 
 def one_fetch(env, root, line, crash_at=None):
@@ -289,6 +341,9 @@ def run_crashes(ctx, env, st):
         for policy in ("normal", "refresh"):
             for expected in (None, sha256_hex(GOOD)):
                 scen.append((policy, N0, prior, expected, ("B", GOOD)))
+    # an entry that cannot be read is overwritten like a stale one (the rename replaces it)
+    scen.append(("normal", N0, (N0 - 7200, TORN_MB, "G"), None, ("B", GOOD)))
+    scen.append(("normal", N0, (N0 - 10, BAD_BYTES, "G"), sha256_hex(GOOD), ("B", GOOD)))
     # rows that never reach the write (no crash expected): fresh cache hit, server error
     scen.append(("normal", N0, (N0 - 10, GOOD), None, ("B", GOOD)))
     scen.append(("normal", N0, None, None, ("F", 1)))
@@ -307,7 +362,7 @@ def run_crashes(ctx, env, st):
                 prior = row[2]
                 if stt is not None and (prior is None or stt[0] != prior[0]):
                     os.utime(cache_file(root), (row[1], row[1]))      # written by the killed run: simulated clock
-                    stt = (row[1], stt[1])
+                    stt = (row[1],) + stt[1:]
                 tag = "crash:" + cp + (":killed" if crashed else ":not-reached")
                 st["hist"][tag] = st["hist"].get(tag, 0) + 1
                 if crashed:
@@ -349,7 +404,7 @@ def run_crashes(ctx, env, st):
                         st["mism"].append(dict(desc, what="follow-up run differs from the model", impl=out2, model2=mo2[0]))
                     else:
                         st["agree"] += 1
-                    complete = {GOOD} | ({prior[1]} if prior else set())
+                    complete = {GOOD} | ({prior[1]} if readable(prior) else set())
                     if o2[0][0] == "CONTENT" and o2[0][1] not in complete:
                         d = dict(desc, follow_up={"policy": pol2, "expected": exp2, "answer": out2},
                                  what="a later run trusted a cache entry left by an interrupted write (content %r is not a complete body)" % o2[0][1])
@@ -376,10 +431,20 @@ def run_cli_pins(ctx, env, st):
     cases = [("absent", None, 0), ("correct digest", g, 0), ("empty string", "", 2), ("prefix-1", g[:1], 2), ("prefix-4", g[:4], 2),
              ("prefix-32", g[:32], 2), ("prefix-63", g[:63], 2), ("correct digest in upper case", g.upper(), 2),
              ("correct digest plus one character", g + "0", 2), ("64 characters, last one differs", last, 2)]
-    for label, pin, want in cases:
+    # fix D66: a pin that is present but not a string is a configuration error (it used to be dropped, and the remote
+    # content took effect unverified); written as raw TOML
+    raw = [("an integer", "12345"), ("a boolean", "true"), ("an array holding the digest", '["%s"]' % g), ("a float", "1.5"),
+           ("a table", '{ sha256 = "%s" }' % g)]
+    for label, pin, want in cases + [(l, ("RAW", r), 2) for l, r in raw]:
         with Sandbox("sgv-c18-cli-") as sb:
             sb.write(".sloc-guard.toml", "")
-            leaf = 'extends = "%s"\n' % url + ('extends_sha256 = "%s"\n' % pin if pin is not None else "")
+            diag = "hash mismatch"
+            if isinstance(pin, tuple):
+                leaf = 'extends = "%s"\nextends_sha256 = %s\n' % (url, pin[1])
+                diag = "'extends_sha256' must be a string"
+                label = "not a string: " + label
+            else:
+                leaf = 'extends = "%s"\n' % url + ('extends_sha256 = "%s"\n' % pin if pin is not None else "")
             sb.write("cfg/leaf.toml", leaf)
             cp = sb.write(".sloc-guard/remote-configs/%s.toml" % sha256_hex(url), body)
             rc, out, err = sb.run(env["cli"], ["--color", "never", "--extends-policy", "offline", "config", "show", "--format", "json", "-c", "cfg/leaf.toml"])
@@ -388,15 +453,15 @@ def run_cli_pins(ctx, env, st):
             st["hist"]["cli-pin:" + label] = st["hist"].get("cli-pin:" + label, 0) + 1
             what = None
             if rc != want:
-                what = "extends_sha256 = %r (%s) over cached content with SHA-256 %s: exit %d, required %d" % (pin, label, g, rc, want)
+                what = "extends_sha256 = %r (%s) over cached content with SHA-256 %s: exit %d, required %d (the content must not take effect unverified)" % (pin, label, g, rc, want)
             elif want == 0:
                 try:
                     if json.loads(out)["content"]["max_lines"] != 123:
                         what = "remote content did not take effect"
                 except (ValueError, KeyError):
                     what = "unparsable config show output"
-            elif "hash mismatch" not in err:
-                what = "exit 2 without a hash-mismatch diagnostic"
+            elif diag not in err:
+                what = "exit 2 without the diagnostic %r" % diag
             if open(cp).read() != body:
                 what = (what or "") + " ; cache file changed"
             if what:
@@ -447,11 +512,41 @@ class Stub:
         self.srv.server_close()
 
 
+def fs_state(path):
+    """What sits at the entry path: None | text | ("G", bytes as latin-1) | ("D",)."""
+    if os.path.isdir(path):
+        return ("D",)
+    if not os.path.exists(path):
+        return None
+    b = open(path, "rb").read()
+    try:
+        return b.decode("utf-8")
+    except UnicodeDecodeError:
+        return ("G", b.decode("latin-1"))
+
+
+def model_state(c):
+    """The same view of a model cache value."""
+    if c is None:
+        return None
+    if is_dir(c):
+        return ("D",)
+    return c[1] if readable(c) else ("G", c[1])
+
+
+HTTP_CMDS = {"show": ["config", "show", "--format", "json"],
+             "validate": ["config", "validate", "-c", ".sloc-guard.toml"],
+             "check": ["check", "--no-sloc-cache", "--format", "json", "."]}
+
+
 def run_real_server(ctx, env, st):
-    """ReqwestClient (the production HttpClient) through the real binary. A scenario is an initial cache entry and a
-    list of runs (policy, pin, status the server answers); compared with the model's history (2xx = body, anything
-    else = client error) and with the statement: a non-2xx answer is a failed fetch (exit 2, diagnostic naming the
-    status), leaves the cache as it was, and a later healthy run applies the real configuration."""
+    """ReqwestClient (the production HttpClient) through the real binary. A scenario is an initial cache entry, a
+    list of runs (policy, pin, status the server answers) and the command that loads the configuration (config show,
+    config validate, check: every one of them takes the global --extends-policy); compared with the model's history
+    (2xx = body, anything else = client error) and with the statement: a non-2xx answer is a failed fetch (exit 2,
+    diagnostic naming the status), leaves the cache as it was, a later healthy run applies the real configuration,
+    the offline policy never sends a request (the stub counts them) and fails when the entry is absent or cannot be
+    read, the refresh policy always sends exactly one."""
     try:
         stub = Stub()
     except OSError as e:
@@ -461,43 +556,66 @@ def run_real_server(ctx, env, st):
     g = sha256_hex(GOOD)
     scen = []
     for code in STATUSES:
-        scen.append((None, [("normal", None, code), ("normal", None, 200)]))
-    scen += [(("fresh", OLD), [("offline", None, 500)]),
-             (("fresh", OLD), [("refresh", None, 304), ("normal", None, 200)]),
-             (("stale", OLD), [("normal", None, 304), ("normal", None, 200)]),
-             (("stale", OLD), [("normal", None, 200), ("offline", None, 503)]),
-             (None, [("normal", g, 304), ("normal", g, 200), ("offline", g, 404)]),
-             (None, [("normal", "", 200), ("normal", g[:4], 200)]),
-             (None, [("normal", g, 204), ("refresh", None, 300), ("refresh", None, 200)]),
-             (None, [("offline", None, 200)])]
+        scen.append((None, [("normal", None, code), ("normal", None, 200)], "show"))
+    scen += [(("fresh", OLD), [("offline", None, 500)], "show"),
+             (("fresh", OLD), [("refresh", None, 304), ("normal", None, 200)], "show"),
+             (("stale", OLD), [("normal", None, 304), ("normal", None, 200)], "show"),
+             (("stale", OLD), [("normal", None, 200), ("offline", None, 503)], "show"),
+             (None, [("normal", g, 304), ("normal", g, 200), ("offline", g, 404)], "show"),
+             (None, [("normal", "", 200), ("normal", g[:4], 200)], "show"),
+             (None, [("normal", g, 204), ("refresh", None, 300), ("refresh", None, 200)], "show"),
+             (None, [("offline", None, 200)], "show"),
+             # entries that exist but cannot be read: a miss under every policy, never a reason to go online when offline
+             (("fresh", TORN_MB, "G"), [("offline", None, 200), ("normal", None, 200), ("offline", None, 500)], "show"),
+             (("fresh", TORN_MB, "G"), [("offline", g, 200), ("offline", None, 200)], "check"),
+             (("stale", TORN_MB, "G"), [("offline", None, 200), ("refresh", None, 200)], "validate"),
+             (("fresh", BAD_BYTES, "G"), [("offline", g, 200), ("normal", g, 200)], "show"),
+             (("stale", BAD_BYTES, "G"), [("offline", None, 200)], "validate"),
+             (("fresh", "", "D"), [("offline", None, 200), ("normal", None, 200), ("offline", None, 200)], "show"),
+             (("stale", "", "D"), [("offline", g, 200)], "check"),
+             # config validate / check under the global policy flag (D65: validate used to load with the normal policy)
+             (None, [("offline", None, 200), ("normal", None, 200), ("offline", None, 500)], "validate"),
+             (("fresh", OLD), [("refresh", None, 200), ("offline", None, 500)], "validate"),
+             (("stale", OLD), [("offline", None, 500), ("normal", None, 200)], "validate"),
+             (None, [("normal", g, 200), ("offline", g, 404), ("refresh", sha256_hex(OLD), 200)], "validate"),
+             (None, [("offline", None, 200), ("refresh", None, 200), ("offline", None, 503)], "check")]
     try:
-        for (init, runs) in scen:
+        for (init, runs, cmd) in scen:
             with Sandbox("sgv-c18-http-") as sb:
                 url = "http://127.0.0.1:%d/base.toml" % stub.port
                 cpath = os.path.join(sb.proj, ".sloc-guard", "remote-configs", sha256_hex(url) + ".toml")
                 c0 = None
                 if init:
-                    sb.write(cpath, init[1], base="/")
+                    os.makedirs(os.path.dirname(cpath), exist_ok=True)
+                    kind = init[2] if len(init) > 2 else None
+                    if kind == "D":
+                        os.mkdir(cpath)
+                    else:
+                        with open(cpath, "wb") as fh:
+                            fh.write(init[1].encode("latin-1" if kind == "G" else "utf-8"))
                     if init[0] == "stale":
                         t = os.stat(cpath).st_mtime - 7200
                         os.utime(cpath, (t, t))
-                    c0 = (N0 - (10 if init[0] == "fresh" else 7200), init[1])
+                    c0 = (N0 - (10 if init[0] == "fresh" else 7200),) + tuple(init[1:])
                 steps, answers = [], []
+                cur = c0
                 for k, (policy, pin, code) in enumerate(runs):
                     sb.write(".sloc-guard.toml", 'extends = "%s"\n' % url + ('extends_sha256 = "%s"\n' % pin if pin is not None else ""))
                     stub.status = code
                     before_req = stub.requests
-                    before = open(cpath).read() if os.path.exists(cpath) else None
-                    rc, out, err = sb.run(env["cli"], ["--color", "never", "--extends-policy", policy, "config", "show", "--format", "json"],
-                                          env={"NO_PROXY": "127.0.0.1", "no_proxy": "127.0.0.1"})
+                    before = fs_state(cpath)
+                    rc, out, err = sb.run(env["cli"], ["--color", "never", "--extends-policy", policy] + HTTP_CMDS[cmd],
+                                          env={"NO_PROXY": "127.0.0.1", "no_proxy": "127.0.0.1", "RAYON_NUM_THREADS": "1"})
                     st["spawns"] += 1
                     st["evals"] += 1
-                    tag = "http:%s:%d" % (policy, code)
+                    tag = "http:%s:%s:%d" % (cmd, policy, code)
                     st["hist"][tag] = st["hist"].get(tag, 0) + 1
-                    after = open(cpath).read() if os.path.exists(cpath) else None
+                    if isinstance(before, tuple):
+                        st["hist"]["http:unreadable-entry:" + policy] = st["hist"].get("http:unreadable-entry:" + policy, 0) + 1
+                    after = fs_state(cpath)
                     nreq = stub.requests - before_req
                     ml = None
-                    if rc == 0:
+                    if rc == 0 and cmd == "show":
                         try:
                             ml = json.loads(out)["content"]["max_lines"]
                         except (ValueError, KeyError):
@@ -505,18 +623,26 @@ def run_real_server(ctx, env, st):
                     answers.append((rc, ml, nreq, after, err))
                     srv = ("B", GOOD) if code == 200 else (("B", EMPTY) if 200 <= code < 300 else ("F", 1))
                     steps.append((policy, N0 + k, pin, srv))
-                    desc = {"level": "http", "initial_cache": init, "runs": runs, "step": k, "impl": {"rc": rc, "max_lines": ml, "requests": nreq, "cache_after": after, "stderr": err[-300:]}}
+                    desc = {"level": "http", "command": " ".join(["--extends-policy", policy] + HTTP_CMDS[cmd]), "initial_cache": init, "runs": runs, "step": k,
+                            "impl": {"rc": rc, "max_lines": ml, "requests": nreq, "cache_before": before, "cache_after": after, "stderr": err[-300:]}}
                     # the statement itself
                     if not (200 <= code < 300) and nreq > 0:
                         if rc != 2 or ("HTTP %d" % code) not in err:
                             st["fails"].append(dict(desc, what="the server answered HTTP %d (not 2xx) and the run did not fail with that diagnostic (exit %d)" % (code, rc)))
                         if after != before:
                             st["fails"].append(dict(desc, what="a failed fetch (HTTP %d) changed the cache: %r -> %r" % (code, before, after)))
-                    if policy == "offline" and nreq != 0:
-                        st["fails"].append(dict(desc, what="offline policy contacted the server"))
-                    if pin is not None and rc == 0 and after is not None and sha256_hex(after) != pin and after != before:
+                    if policy == "offline":
+                        if nreq != 0:
+                            st["fails"].append(dict(desc, what="offline policy contacted the server (%d request(s) seen by the stub; entry before the run: %r)" % (nreq, before)))
+                        if after != before:
+                            st["fails"].append(dict(desc, what="offline policy changed the cache: %r -> %r" % (before, after)))
+                        if not isinstance(before, str) and (rc != 2 or "cache miss" not in err):
+                            st["fails"].append(dict(desc, what="offline policy with a cache miss (entry %r) did not fail with the cache-miss error (exit %d)" % (before, rc)))
+                    if policy == "refresh" and nreq != 1:
+                        st["fails"].append(dict(desc, what="refresh policy sent %d requests (exactly one required: it never reads the cache)" % nreq))
+                    if pin is not None and rc == 0 and isinstance(after, str) and sha256_hex(after) != pin and after != before:
                         st["fails"].append(dict(desc, what="content not matching extends_sha256 was cached"))
-                    if code == 200 and nreq > 0 and pin in (None, g) and (rc != 0 or ml != 100 or after != GOOD):
+                    if code == 200 and nreq > 0 and pin in (None, g) and (rc != 0 or (cmd == "show" and ml != 100) or (after != GOOD and before != ("D",))):
                         st["fails"].append(dict(desc, what="a healthy fetch did not apply / cache the real configuration"))
                 # the model's history
                 def stepf(s):
@@ -529,20 +655,19 @@ def run_real_server(ctx, env, st):
                     oc = parse_outcome(o.rsplit(" ", 1)[0])
                     n_model = int(o.rsplit(" ", 1)[1])
                     want_rc = 0 if oc[0] == "CONTENT" else 2
-                    if rc != want_rc or nreq != n_model or (oc[0] == "CONTENT" and ml != limit.get(oc[1])):
+                    if rc != want_rc or nreq != n_model or (oc[0] == "CONTENT" and cmd == "show" and ml != limit.get(oc[1])):
                         ok = False
-                fin = parse_cache(final)
-                if (fin[1] if fin else None) != answers[-1][3]:
+                if model_state(parse_cache(final)) != answers[-1][3]:
                     ok = False
                 if ok:
                     st["agree"] += len(runs)
                 else:
-                    st["mism"].append({"level": "http", "initial_cache": init, "runs": runs, "model_line": m, "model": mo[0],
+                    st["mism"].append({"level": "http", "command": cmd, "initial_cache": init, "runs": runs, "model_line": m, "model": mo[0],
                                        "impl": [(a[0], a[1], a[2], a[3]) for a in answers]})
-                st["nontrivial"].add("http:" + repr((init, runs)))
+                st["nontrivial"].add("http:" + repr((init, runs, cmd)))
     finally:
         stub.close()
-    ctx.sample({"level": "http", "statuses_answered": STATUSES, "scenarios": len(scen), "example": {"initial_cache": scen[4][0], "runs": scen[4][1]}})
+    ctx.sample({"level": "http", "statuses_answered": STATUSES, "scenarios": len(scen), "commands": sorted(HTTP_CMDS), "example": {"initial_cache": scen[4][0], "runs": scen[4][1]}})
     ctx.cov["http_statuses_exercised"] = STATUSES
 
 
@@ -565,12 +690,13 @@ def xcheck(ctx, env, k):
     exprs, mls = [], []
     for (p, now, c, e, s) in rows:
         e2 = None if e is None else toy[GOOD if e == sha256_hex(GOOD) else OLD]
-        cc = "None" if c is None else "(Some {| c_body := %s; c_mtime := %d |})" % (cstr(c[1]), c[0])
+        kind = "EText" if readable(c) else ("EDir" if is_dir(c) else "EGarbled")
+        cc = "None" if c is None else "(Some {| c_body := %s; c_mtime := %d; c_kind := %s |})" % (cstr(c[1]), c[0], kind)
         ee = "None" if e2 is None else "(Some %s)" % cstr(e2)
         ss = "(SBody %s)" % cstr(s[1]) if s[0] == "B" else "(SFail %d)" % s[1]
         exprs.append("match fetch toyH %s %d %s %s %s with (o, c, n) => "
                      "(match o with OContent s => 1 :: s | OMismatch a => 2 :: a | OMiss => [3] | OFail k => [4; k] end) ++ [9999] ++ "
-                     "(match c with None => [0] | Some e => 1 :: c_mtime e :: c_body e end) ++ [9999; n] end" % (pol[p], now, cc, ee, ss))
+                     "(match c with None => [0] | Some e => (match c_kind e with EText => 1 | EGarbled => 2 | EDir => 3 end) :: c_mtime e :: c_body e end) ++ [9999; n] end" % (pol[p], now, cc, ee, ss))
         mls.append("fetch\t%s\t%d\t%s\t%s\t%s\t%s" % (p, now, cache_field(c), enc_opt(e2), server_field(s), ht))
     res = coq_eval("From Coq Require Import NArith List.\nFrom SG Require Import Config.Toml Config.Remote.\nImport ListNotations. Open Scope N_scope.\n" + hdef, exprs)
     mouts, _, _ = run_lines(env["model"], mls)
@@ -580,7 +706,7 @@ def xcheck(ctx, env, k):
         o, c, n = parse_fetch_out(mo)
         exp = {"CONTENT": lambda: [1] + [ord(ch) for ch in o[1]], "MISMATCH": lambda: [2] + [ord(ch) for ch in o[1]],
                "MISS": lambda: [3], "FAIL": lambda: [4, o[1]]}[o[0]]()
-        exp += [9999] + ([0] if c is None else [1, c[0]] + [ord(ch) for ch in c[1]]) + [9999, n]
+        exp += [9999] + ([0] if c is None else [1 if readable(c) else (3 if is_dir(c) else 2), c[0]] + [ord(ch) for ch in c[1]]) + [9999, n]
         if nums != exp:
             bad += 1
     ctx.cov["extraction_crosscheck"] = {"cases": len(rows), "disagreements": bad}
@@ -613,14 +739,15 @@ def run(ctx):
     ctx.cov["child_process_spawns"] = st["spawns"]
     ctx.cov["exhaustive"] = True
     ctx.cov["input_distribution"] = st["hist"]
-    ctx.cov["rule"] = ("exhaustive product policy(normal, offline, refresh) x cache(absent; ages 10, 3599, 3600, 7200, future x bodies matching, other, truncated, empty) x "
+    ctx.cov["rule"] = ("exhaustive product policy(normal, offline, refresh) x cache(absent; ages 10, 3599, 3600, 7200, future x bodies matching, other, truncated, empty; "
+                       "fresh / stale x entries that exist but cannot be read: a file torn inside a multi-byte character, a file of invalid UTF-8 bytes, a directory at the entry path) x "
                        "extends_sha256(11 values: absent, the correct digest, the digest of the old body, the empty string, prefixes of the correct digest of 1 / 4 / 32 / 63 hex digits, "
                        "the correct digest in upper case, the digest plus one character, 64 characters differing in the last one - the model compares the pin by equality, so all but the "
-                       "exact digest are mismatches) x server(correct body, altered body, connection error, time-out) = 2772 rows under the "
+                       "exact digest are mismatches) x server(correct body, altered body, connection error, time-out) = 3564 rows under the "
                        "simulated clock (SGV_NOW) plus the rows away from the TTL boundary under the wall clock (cache file aged with set_modified); seeded histories of 2-4 fetches "
-                       "sharing one cache file with an advancing clock and the same pin values; the pin through the CLI (leaf.toml with extends_sha256, cached remote, --extends-policy offline, 10 pin values); the production client (reqwest) through the real binary against a local HTTP "
-                       "server on 127.0.0.1 answering each of 200, 204, 300, 301 (no Location), 304, 400, 404, 500, 503, followed by a healthy run, plus offline / refresh / pinned scenarios "
-                       "(requests counted by the server); every named hook point of the cache write killed in a child process (SGV_CRASH_AT) for 14 scenarios, each "
+                       "sharing one cache file with an advancing clock and the same pin values; the pin through the CLI (leaf.toml with extends_sha256, cached remote, --extends-policy offline, 10 string pin values and 5 pins that are not strings); the production client (reqwest) through the real binary against a local HTTP "
+                       "server on 127.0.0.1 answering each of 200, 204, 300, 301 (no Location), 304, 400, 404, 500, 503, followed by a healthy run, plus offline / refresh / pinned scenarios, unreadable entries under every policy and the commands config show / config validate / check "
+                       "(requests counted by the server: offline 0, refresh exactly 1); every named hook point of the cache write killed in a child process (SGV_CRASH_AT) for 16 scenarios, each "
                        "followed by three second runs with the server unreachable. Observables: returned content or error kind, requests seen by the scripted client, cache bytes "
                        "and mtime afterwards. Every row: impl vs extracted model, impl vs the python reading of the C18 statement. "
                        "non-trivial = distinct row with a cache entry or a pinned hash, every history, every (scenario, kill point) that was reached")
